@@ -37,7 +37,7 @@ def make_root(darsia, rng, shape, T, comps, timekind, h, omode, table, cls_name,
     return cls(arr, **kw), o
 
 
-def project(img, o, h, table):
+def project(img, o, h, table, cs=None):
     """Projection of an image onto the observables of the specification."""
     n = img.space_dim
 
@@ -59,8 +59,16 @@ def project(img, o, h, table):
         dims.append(int(round(x)) if abs(x - round(x)) < 1e-6 * (1 + abs(x)) else BAD)
     vs = [int(round(1e6 * img.voxel_size[a] / h[a])) for a in range(n)]
     # the coordinate system of the child must place voxel v where the parent placed it: use coordinate(0)
-    org = to_lattice(np.asarray(img.coordinatesystem.coordinate([0] * n)), o, table, h)[0]
+    org = to_lattice(np.asarray((cs or img.coordinatesystem).coordinate([0] * n)), o, table, h)[0]
     org2 = to_lattice(np.asarray(img.origin), o, table, h)[0]
+    # ... and voxel (1, .., 1) one voxel further along every axis (the coordinate system steps by the image's voxel size)
+    one = to_lattice(np.asarray((cs or img.coordinatesystem).coordinate([1] * n)), o, table, h)[0]
+    want = list(org)
+    for m in range(n):
+        c, sgn = table[m]
+        want[c - 1] = org[c - 1] + 4 * sgn
+    if one != want:
+        org = [BAD] * n
     return {"shape": [int(s) for s in img.img.shape], "tags": [int(x) for x in np.asarray(img.img).ravel()],
             "origin": org if org == org2 else [BAD] * n, "dims": dims, "vsize": vs,
             "series": int(bool(img.series)), "scalar": int(bool(img.scalar)),
@@ -121,11 +129,13 @@ def run_program(darsia, rng, tid, prog, shape, T, comps, timekind, h, omode, tab
     rootcopy = root.img.copy()
     cur = root
     chain = []
+    kept = [root.coordinatesystem]      # coordinate systems taken when the images were made, used again at the very end
     for op in prog:
         e = dict(op, tid=tid, raised=0)
         try:
             cur = apply_op(darsia, rng, cur, op, h, o, table)
             chain.append(cur)
+            kept.append(cur.coordinatesystem)
             e["child"] = project(cur, o, h, table)
             if type(cur).__name__ != cls_name:
                 e["child"]["scalar"] = -7  # class not preserved
@@ -152,8 +162,11 @@ def run_program(darsia, rng, tid, prog, shape, T, comps, timekind, h, omode, tab
             pass
         last.img = np.zeros_like(last.img)
         last.origin = [x + 1.0 for x in np.asarray(last.origin, dtype=float)]
+        # ... while an unrelated image of other voxel sizes has come into being and been placed in between
+        other, _ = make_root(darsia, rng, shape, T, comps, timekind, [x * 2.5 for x in h], "user", table, cls_name, "float64")
+        other.coordinatesystem.coordinate([0] * len(shape))
         for k, im in enumerate([root] + chain[:-1]):
-            ev.append({"tid": tid, "op": "again", "k": k + 1, "child": project(im, o, h, table)})
+            ev.append({"tid": tid, "op": "again", "k": k + 1, "child": project(im, o, h, table, cs=kept[k] if rng.random() < 0.5 else None)})
     return ev
 
 
@@ -228,6 +241,37 @@ def stack_event(darsia, rng, tid, n, k, timekind, shape, use_append):
         e["raised"] = 1
         e["error"] = repr(ex)[:200]
     return e
+
+
+def box_growth(ck, darsia):
+    """Growth beyond the listed properties: bounding boxes of voxel sets (spec/Box.tla), conformance with the as-built rule.
+    Reported as an observation / note, never as a violation of C02."""
+    ck.sany("Box")
+    ck.model_check("Box", "Box_covering.cfg", workers=1)
+    rp = ck.tlc("Box", "Box_asbuilt_prop.cfg", workers=1, expect_ok=False, label="asbuilt-property")
+    rb = ck.model_check("Box", "Box_asbuilt.cfg", workers=1)
+    agree, total, inv_ok, per_ok = 0, 0, 0, 0
+    for p in rb.printed("BOX"):
+        V, pad, clip, box, per = sorted(tuple(v) for v in p[1]), int(p[2]), bool(p[3]), p[4], int(p[5])
+        total += 1
+        try:
+            got = darsia.bounding_box(darsia.VoxelArray([list(v) for v in V]), padding=pad, max_size=(3, 3) if clip else None)
+            g = [[int(sl.start), int(sl.stop)] for sl in got]
+            agree += int(g == [list(b) for b in box])
+            corners = darsia.bounding_box_inverse(got)
+            back = darsia.bounding_box(corners)
+            inv_ok += int([[int(sl.start), int(sl.stop)] for sl in back] == g)
+            per_ok += int(int(darsia.perimeter(got)) == per)
+        except Exception:  # noqa
+            pass
+    ck.cov["bounding_box"] = {"voxel_sets": total, "implementation_follows_asbuilt_rule": agree, "inverse_round_trip": inv_ok, "perimeter": per_ok,
+                              "covers_under_asbuilt_rule": "violated" if "Covers" in rp.violated else "holds"}
+    if total and agree == total and inv_ok == total and per_ok == total and "Covers" in rp.violated:
+        print(f"OBSERVATION (not a listed property): darsia.bounding_box follows the as-built rule of Box.tla on all {total} voxel sets/paddings: "
+              "its slices stop at the largest voxel index (+ padding), so the array region they select does not contain the largest voxel of the set "
+              "(Covers fails under that rule; a single voxel gives an empty region); bounding_box_inverse and perimeter agree with the model")
+    elif total:
+        ck.note(f"Box: bounding_box follows the as-built rule on {agree} of {total} cases, inverse round trip {inv_ok}, perimeter {per_ok}")
 
 
 def run(ck, replay=None):
@@ -306,6 +350,7 @@ def run(ck, replay=None):
                 n = rng.choice([2, 3])
                 events.append(stack_event(darsia, rng, tid, n, k, timekind, tuple(rng.randint(1, 3) for _ in range(n)), use_append))
                 nstack += 1
+    box_growth(ck, darsia)
     # ---- extension: whole-library sessions (time bookkeeping, assembly, metadata well-formedness) against Session.tla
     from checks import session as sess
     ck.sany("MC_Session", "Trace_Session")
